@@ -35,10 +35,10 @@
        (reachable) or at a deferred block (waiting beneath it)                 [C09_classification, C09_no_leak]
      * a block reachable from the live variables is on no free list; the block that erase /
        release put on a list was on none, and the lists stay duplicate free    [C09_no_use_after_release, C09_no_double_release]
-     * refinement of share_block_n and erase_block to the emitted x86-64 code on the ISA semantics,
-       pointer in a register or a spill slot, null included, all branches; the image is any image
-       containing the code whose labels resolve to their positions (as mk_image gives for
-       duplicate-free labels)                                                  [C09_x86_share_block, C09_x86_erase_block, C09_x86_image]
+     * refinement of share_block_n, erase_block and release_block to the emitted x86-64 code on the
+       ISA semantics, pointer in a register or a spill slot, null included, all branches; the image
+       is any image containing the code whose labels resolve to their positions (as mk_image gives
+       for duplicate-free labels)        [C09_x86_share_block, C09_x86_erase_block, C09_x86_release_block, C09_x86_image]
 
    NOT YET PROVED (visible as missing theorems)
      * the lifting from operation traces to AxCut programs (each statement's code is a sequence of
@@ -250,6 +250,16 @@ Theorem C09_x86_erase_block :
        same_but_temp_free s s' /\ frame_ok s' sp.
 Proof. exact x86_erase_block_ok. Qed.
 Print Assumptions C09_x86_erase_block.
+
+Theorem C09_x86_release_block :
+  forall im pos r s p h F,
+    code_at im pos (release_block r) ->
+    rget s r = Some p -> rget s HEAP = Some h -> is_blk p ->
+    exists s', steps im pos s (pnth pos 2) s' /\
+       st_eqB (abs_heap F s') (Heap.release p (abs_heap F s)) /\
+       (forall r', r' <> HEAP -> rget s' r' = rget s r') /\ stack s' = stack s /\ out s' = out s.
+Proof. exact x86_release_block_ok. Qed.
+Print Assumptions C09_x86_release_block.
 
 (* the hypotheses on the image hold for mk_image of a program with duplicate-free labels, and
    `steps` is what the executable runner does *)
